@@ -64,7 +64,8 @@ def run(chk):
     import c16
     import interp
     c16.rule_dimension_total(chk, interp.Interp(f), prefix="C08.sibling")
-    rule_errors(chk, comp)
+    if not rule_errors_eval(chk, comp):
+        rule_errors(chk, comp)
     rule_strslice(chk, reach)
     rule_admitted_kinds(chk)
     rule_elab_total(chk)
@@ -482,6 +483,34 @@ def rule_loop(chk):
             ok = ok or (bool(asg) and brk and bool(tries))
         chk.ob("C08.loop/%s" % name, ok, "operator loop consumes an operator and an operand per iteration or stops" if ok else
                "%s's loop no longer advances the input / propagates operand errors" % name, where(fn))
+
+
+def rule_errors_eval(chk, comp):
+    """compile() walked with scripted stages: when the preprocessor, the parser, the type checker, the layout checker
+    or the exporter fails, compile returns CompileError::Text with that stage's rendered diagnostic, and no later stage
+    runs. True when readable."""
+    import compilemodel as CMP
+    f = chk.facts
+    ORDER = ["preprocess", "prepare_tokens", "parse", "type_check", "check_layout", "build_pipeline"]
+    for stage, key in (("preprocess", "preprocess::preprocess"), ("parse", "parser::parse"), ("type_check", "type_check"), ("check_layout", "check_layout"), ("build_pipeline", "export")):
+        bad = None
+        for tgt in (f.variants("Target", "rssl") or ["HlslForDirectX"]):
+            r = CMP.run_compile(f, comp, CMP.Scenario(target=tgt, fail=stage))
+            if r.result[0] == "unreadable":
+                chk.note("C08.errors: compile() is not readable (%s); the shape rule decides" % r.result[1])
+                return False
+            after = [c for c in r.calls if c in ORDER and ORDER.index(c) > ORDER.index(stage)]
+            text = r.result[2] if len(r.result) > 2 else None
+            rendered = isinstance(text, str) and (stage in text or stage == "build_pipeline")
+            if r.result[0] == "aborts":
+                bad = bad or "%s: a failing %s aborts compile (%s)" % (tgt, stage, r.result[1])
+            elif r.result[:2] != ("Err", "Text") or not rendered:
+                bad = bad or "%s: a failing %s gives %s instead of CompileError::Text with its rendered diagnostic" % (tgt, stage, r.result)
+            elif after:
+                bad = bad or "%s: after a failing %s the stages %s still run" % (tgt, stage, after)
+        chk.ob("C08.errors/%s" % key, bad is None, "a failing %s is returned as its rendered diagnostic; nothing runs after it" % stage if bad is None else bad, where(comp))
+    chk.floor("C08.floor/error-renderers", 4, 4, "stage failures rendered (decided by the evaluated scenarios)", where(comp))
+    return True
 
 
 def rule_errors(chk, comp):
